@@ -3,16 +3,73 @@
 import json, os
 V = os.path.dirname(os.path.dirname(os.path.abspath(__file__)))
 ALL = ["C%02d" % i for i in range(1, 21)]
-CLAIMED = {
- "C16": dict(
-   text="Machine-checked proof (Lean 4) that the model of adfDays2Date/adfTime2AmigaTime are exact inverses and agree with an independent Gregorian calendar for every date from 1978 with no upper bound; the model is tied to the C code by an exhaustive differential run (every day 0..45000, every date 1978..2100 x 4 times of day) and by dates stamped on real entries under a scripted clock.",
-   note="Trusted: Lean kernel; axioms propext, Classical.choice, Quot.sound; the hand-written model AdfModel/Util.lean (tied to C only on the exhaustively enumerated range); C locale; clock replaced by link-time wrap. Negative day counts (hostile images only) are not modelled.",
-   technique="Lean 4 proof (induction over year/month loops) + exhaustive C-vs-model correspondence", design="5/C16"),
- "C20": dict(
-   text="Machine-checked proof (Lean 4) that for ALL byte strings path/name and every extraction directory, every path unadf's output_name hands to mkdir/open/utimes is <extract_dir>/ followed by a relative part that never leaves its start directory (no '..' component survives, no leading separator), including every intermediate directory it creates. Tied to examples/unadf.c by running the real output_name (linked into the harness) against the model on ~17k (quick) enumerated and random triples, and by running the real unadf binary on images with hostile names in a sandbox tree with sentinels.",
-   note="Partial on the OS side by nature: the theorem is lexical; symlinks or a pre-populated destination are outside the model (unadf creates no symlinks). Trusted: Lean kernel; axioms propext, Quot.sound; the hand model AdfModel/Unadf.lean (POSIX build, no -w); extract_tree/extract_filepath call structure is covered by the sandbox runs only.",
-   technique="Lean 4 proof over a model of output_name + differential run against the real function + sandboxed runs of the real binary", design="5/C20"),
-}
+CLAIMED = {}
+COMMON_NOTE = ("Trusted: Lean 4.33 kernel; axioms propext, Classical.choice, Quot.sound only (audited on every run, no sorry/native_decide); the hand-written "
+               "C-mirror model lean/AdfModel/*.lean, tied to the code by the correspondence runs, which are differential testing (generator quality bounds what they see); "
+               "gcc, libc, ASan/UBSan; malloc never failing; scripted clock; dump-file devices with intercepted sector I/O.")
+def claim(pid, text, note, technique, design):
+    CLAIMED[pid] = dict(text=text, note=note + " " + COMMON_NOTE, technique=technique, design=design)
+
+claim("C01", "Proof (Lean 4) of the arithmetic that maps a byte position to its data block / header slot / extension block and slot, of the block counts of a file size, and of the block set released by a truncation, for all positions < 2^32 and both block sizes; the whole file layer (open/read/write/seek/truncate/flush/close, OFS and FFS, extension blocks) is modelled as a C-mirror `Prog` and tied to the code by trace-exact differential runs (results AND every device access with the hash of every block written) on seeded multi-file, multi-handle histories around every 488/512 and 72-block boundary; the real code is judged against a byte-array model at every step, after fresh opens and after remount.",
+      "Partial: the refinement 'model file layer = byte array' is proved for the positional arithmetic only, not yet for the read/write loops; the byte-array verdict on the real code comes from the oracle runs.",
+      "Lean 4 proof of the file-position kernel + trace-exact model/code correspondence + byte-array oracle", "5/C01")
+claim("C02", "Proof (Lean 4) that name lookup/creation use one comparison (equality of case-folded names truncated to 30 bytes) and that the hash slot is a function of that folded name; the namespace layer (create, mkdir, remove, rename/move with its pre-checks, comment, protection, chdir, listings) is a C-mirror model tied to the code by trace-exact differential runs on histories with colliding names, case variants, failing calls; the real code is judged against a tree model in which a failing call changes nothing, and against the independently decoded image.",
+      "Partial: refinement of the chain manipulation to the tree model is not proved; verdicts on histories come from the oracle runs.",
+      "Lean 4 proof of the name-matching kernel + trace-exact model/code correspondence + tree-model and decoder oracles", "5/C02")
+claim("C03", "Proof (Lean 4) of the block codec: big-endian word codec round trip for all 128 words, checksum field makes the block sum to zero, cache-record codec round trip; every write function of the model sets type/secType/self fields as the format demands. The image left by the real code at quiescent points of seeded histories is decoded by an independent decoder written from the format document (validated on the five AmigaDOS-made dumps shipped with the repo) and compared with the tree/byte-array models; model and code are compared trace-exact.",
+      "Partial: conformance of every reachable image (Inv => WF) is not proved; it is checked on the explored histories by the independent decoder.",
+      "Lean 4 proof of the codecs + trace-exact correspondence + independent spec-based decoder", "5/C03")
+claim("C04", "Proof (Lean 4) of the bitmap kernel (test/set/clear of a block's bit touch exactly that block, for all block numbers) and of the allocator contract for the scan of adfGetFreeBlocks: every block it returns was free, lies in [2, last], they are pairwise distinct, and it fails only when fewer than the requested number are free. Reachability closure vs on-disk bitmap is checked by the independent decoder at every quiescent point of seeded histories (incl. failing calls, full volumes, remounts); model and code compared trace-exact.",
+      "Partial: 'no reachable block is free' as an invariant of all histories is not proved; it is checked on the explored histories.",
+      "Lean 4 proof of bitmap kernel and allocator contract + trace-exact correspondence + independent decoder", "5/C04-C05")
+claim("C05", "Same bitmap/allocator theorems as C04 plus the closed form of the free count of a fresh volume; leak freedom and exact free counts are checked at every quiescent point of seeded histories by the independent decoder and the tree model (exact count on non-DIRCACHE flavours), with profiles that hit exhaustion exactly at extension-block boundaries.",
+      "Partial: conservation as an invariant of all histories is not proved; checked on the explored histories.",
+      "Lean 4 proof of bitmap kernel + trace-exact correspondence + independent decoder and exact free-count model", "5/C04-C05")
+claim("C06", "Proof (Lean 4) of the read-path arithmetic (which header/extension slot holds the block of a position) shared with C01. Images produced by an independent writer (random placement, chain order, garbage, Latin-1 names, links, directory caches), accepted only if the independent decoder finds them well-formed, plus the AmigaDOS-made dumps: the read path of the code and of the model are compared trace-exact and what ADFlib returns is compared with what the writer put in.",
+      "Partial: 'WF image => read path returns its content' is not proved as a theorem; checked on generated images.",
+      "Lean 4 proof of the read-path kernel + trace-exact correspondence on independently written images", "5/C06")
+claim("C07", "Proof (Lean 4) that the cache-record parser reads back what the record writer wrote (all fields, any name 1..30 and comment 0..79 bytes) and that every index the parser touches is inside the 488-byte record area. DIRCACHE histories that grow directories past several cache blocks, delete everywhere, change record lengths: cached vs hash listings vs tree model, cache chains decoded independently; model and code compared trace-exact.",
+      "Partial: coherence as an invariant of all histories is not proved; checked on the explored histories.",
+      "Lean 4 proof of the record codec and its bounds + trace-exact correspondence + independent decoder", "5/C07")
+claim("C08", "Uses the allocator theorems of C04 (the allocator fails only when the volume really has too few free blocks; a multi-block request is all-or-nothing). Volumes filled to within 0..150 blocks (and to exactly 0..3 blocks at an extension-block boundary), then every allocation site is hit; short counts, earlier content, image validity, exact accounting and refill are judged by the reference models and the independent decoder; model and code compared trace-exact.",
+      "Partial: the failure branches are not proved to be no-ops on the abstract state; checked on the explored histories.",
+      "Lean 4 allocator theorems + trace-exact correspondence + oracles on exhaustion profiles", "5/C08")
+claim("C09", "Proof (Lean 4) of the local bounds the model makes explicit (cache-record indices, bitmap index from a block number inside the volume, hash slot < 72). Partial by nature: the model has no memory to corrupt. Every profile's histories run under ASan+UBSan (thorough: valgrind memcheck too); a sanitizer report or a firing model bounds check on a valid history is a violation with that history as replay; after closing everything the interposed malloc/free count must be zero.",
+      "Runtime behaviour the model cannot exhibit: wild writes, allocator metadata, stack layout. Which C accesses need a bound is the model's reading of the code.",
+      "Lean 4 proof of explicit bounds + sanitizer/valgrind-instrumented correspondence runs + allocation accounting", "5/C09")
+claim("C10", "Proof (Lean 4) that the guards of the read path make its data-dependent indices safe for EVERY byte string (cache record parser total and in bounds on arbitrary bytes; name/comment lengths clamped; hash slot < 72). Partial by nature. Well-formed images with metadata fields replaced by hostile values (incl. cache-record lengths, RDB blocks), read path under ASan+UBSan vs the model.",
+      "Runtime memory behaviour is observed by the sanitizers only on the generated images.",
+      "Lean 4 proof of read-path guards on arbitrary bytes + sanitizer-instrumented correspondence on mutated images", "5/C10")
+claim("C11", "The model of the read path is a total Lean function whose every walk is a structural or measure-decreasing recursion (termination checked by the kernel) with the same explicit bounds as the C code (chain <= blocks of the volume, listing budget, 512 levels, RDB lists <= 512); images with pointers redirected to self/ancestors/other blocks run on the code under a per-operation read limit and on the model, outputs must agree.",
+      "That the C loops carry the same bounds as the model's recursions is checked by correspondence on cyclic images, not proved.",
+      "Lean 4 termination (kernel-checked recursion) + correspondence under read limits on cyclic images", "5/C11")
+claim("C12", "Proof (Lean 4), by induction over ALL programs of the model's library monad: on a read-only device (all volumes read-only) no write event is emitted and the disk is unchanged; a volume mounted read-only receives no write even on a writable device; the write primitive reports failure. Every mutating call on RO-device x RO-mount combinations is run on the code and the model (trace-exact); the code's access log must contain no write, the image hash must be unchanged and each call must report failure.",
+      "Modelled, not proved: that the C code writes only through adfWriteBlock / adfWrite*block and assigns the read-only flags only at open/mount/create (covered by the correspondence and the write-log oracle).",
+      "Lean 4 proof by induction on the free monad of library programs + trace-exact correspondence + write-log/hash oracle", "5/C12")
+claim("C13", "Proof (Lean 4), by induction over ALL programs: every volume-level device access lies inside the volume's block range (including the 2^32 wrap of logical+first); a sector changes only through a successful write event at that sector; partitions with disjoint cylinder ranges have disjoint block ranges that exclude the RDB area. Partitioned disks with random layouts and hostile pointers: access log of the code checked against the range, bytes outside compared, code vs model trace-exact.",
+      "Modelled, not proved: that all volume-level I/O of the C code goes through adfReadBlock/adfWriteBlock.",
+      "Lean 4 proof by induction on the free monad + trace-exact correspondence + access-log and byte-comparison oracle", "5/C13")
+claim("C14", "Proof (Lean 4) of the closed forms: number of bitmap pages and bitmap-extension blocks for every volume size, root position, and that they fit the formula free = n - 2 - 1 - pages - ext - cache. Format + reopen + mount of floppies, hardfiles around every k*4064+2 boundary (incl. > 25 pages), random partition tables, all flavours, names 0..40 bytes: code vs model trace-exact, mounted fields / free count / empty root / independent decode checked.",
+      "Partial: 'format then mount yields a WF volume' is not proved for the full format function; checked per geometry.",
+      "Lean 4 proof of the geometry arithmetic + trace-exact correspondence over geometry sweeps", "5/C14")
+claim("C15", "Proof (Lean 4): upper-casing is idempotent; the hash is a function of the case-folded 30-byte prefix; two names match (as the lookup/creation code compares them) iff their folded 30-byte prefixes are equal; the folding tables (0xE0..0xFE except 0xF7 on international volumes) stated for all 256 bytes. Exhaustive function-level comparison with the code; (N, M) histories judged by a tree model with folding written from the format document.",
+      "C locale assumed for non-international hashing (libc toupper).",
+      "Lean 4 proof of folding/hash laws + exhaustive function-level correspondence + pair histories", "5/C15")
+claim("C16", "Machine-checked proof (Lean 4) that the model of adfDays2Date/adfTime2AmigaTime are exact inverses and agree with an independent Gregorian calendar for every date from 1978 with no upper bound; tied to the C code by an exhaustive differential run (every day 0..45000, every date 1978..2100 x 4 times of day) and by dates stamped on real entries under a scripted clock.",
+      "Negative day counts (hostile images only) are not modelled.",
+      "Lean 4 proof (induction over year/month loops) + exhaustive C-vs-model correspondence", "5/C16")
+claim("C17", "Proof (Lean 4): the model's run is a function of (configuration, program, initial state incl. clock) — determinism is by construction — and every block it writes has exactly 512 defined bytes. The tie carries the property: two builds of the real library with different stack/heap pre-fill must produce identical results and identical hashes for every block written, equal to the model's; thorough adds valgrind definedness checks on every buffer reaching the device.",
+      "The theorem is about the model; absence of uninitialised bytes in the C code is established by the two-build comparison and valgrind on the explored histories.",
+      "Lean 4 determinism/definedness statement + two-build differential comparison + valgrind", "5/C17")
+claim("C18", "Proof (Lean 4) that the bitmap update writes root(flag INVALID) first, then pages, then root(flag VALID) last, and that all writes go through the write primitives. Before every mutating operation of seeded histories the image is decoded independently and each block write of the real code is classified (root/bitmap/free/own object/directory metadata/chain link of a sibling); a write into another file's header, extension or data block is a violation. Order and hash of every write compared with the model.",
+      "Partial: the per-operation write-set theorem is not proved for every operation; classified on the explored histories.",
+      "Lean 4 proof of the bitmap write order + per-write classification oracle + trace-exact correspondence", "5/C18")
+claim("C19", "Proof (Lean 4), for ALL programs and ALL fault schedules: a failed device access leaves the disk unchanged and reports an error; the disk changes only by successful writes. Partial by nature (whole-access failures only). For operations of seeded histories each device access is made to fail in turn; the code (ASan) must not crash, reads must return a prefix of the true content, untouched files must read back after the fault clears; code vs model under the same schedule.",
+      "Partial sector transfers and device misbehaviour beyond failing an access are not modelled.",
+      "Lean 4 proof over fault schedules + fault enumeration at every I/O index + correspondence", "5/C19")
+claim("C20", "Machine-checked proof (Lean 4) that for ALL byte strings path/name and every extraction directory, every path unadf's output_name hands to mkdir/open/utimes is <extract_dir>/ followed by a relative part that never leaves its start directory, including every intermediate directory. Tied to examples/unadf.c by running the real output_name against the model on ~17k (quick) triples, and by running the real unadf binary on images with hostile names in a sandbox tree with sentinels.",
+      "Partial on the OS side by nature: lexical resolution; symlinks or a pre-populated destination are outside the model (unadf creates no symlinks).",
+      "Lean 4 proof over a model of output_name + differential run against the real function + sandboxed runs of the real binary", "5/C20")
 NA_REASON = "check not built yet in this snapshot (work in progress; see DESIGN.md section 5)"
 def main():
     checks = []
